@@ -46,6 +46,7 @@ func (p *Provider[A]) SetAmmos(ammos []A) {
 func (p *Provider[A]) Run(ctx context.Context, deps core.ProviderDeps) error {
 	const op = "scenario.Provider.Run"
 	p.Deps = deps
+	defer close(p.sink)
 
 	length := uint(len(p.ammos))
 	if length == 0 {
@@ -64,10 +65,10 @@ func (p *Provider[A]) Run(ctx context.Context, deps core.ProviderDeps) error {
 		i := ammoNum % length
 		passNum = ammoNum / length
 		if p.cfg.Passes != 0 && passNum >= p.cfg.Passes {
-			return decoders.ErrPassLimit
+			return nil
 		}
 		if p.cfg.Limit != 0 && ammoNum >= p.cfg.Limit {
-			return decoders.ErrAmmoLimit
+			return nil
 		}
 		ammoNum++
 		ammo := p.ammos[i]
